@@ -32,6 +32,7 @@ class Contract:
         self.assumed = False    # external / trusted: never verified, listed in the trusted base
         self.why = ""           # justification for assumed contracts
         self.ghost = {}          # ghost (skolem) parameters: arbitrary constants when verifying, universally quantified at call sites
+        self.fresh_result = False  # the returned object is newly allocated by the function (checked when verifying)
         self.ghost_init = None  # fn(engine, state) -> None, sets up ghost state for verification
         self.concretise = None  # fn(model dict) -> (args, kwargs) for native replay
         self.native_check = None  # fn(args, kwargs, result_or_exc) -> bool, native reading of the postcondition
